@@ -1,3 +1,9 @@
+/-
+  Lemmas/Cost — step counts and progress of the model's loops (reusable facts behind C08):
+  the locator's candidate lists, `get_line` consumes exactly one line, and the parsers never leave more unread
+  lines than they found (every rewind only un-reads a look-ahead line); `parseAll_fuel`: the section loop never
+  runs out of fuel.
+-/
 import PatchModel.Model.Driver
 namespace PatchModel.Cost
 open PatchModel
@@ -263,5 +269,594 @@ theorem normalReadSide_le : ∀ (fuel : Nat) (par : Parser) (count : Int) (m op 
           · have := ih _ _ _ _ _ _ _ h
             simp only [len] at *; omega
         · simp at h
+
+theorem noNewline_le (c : Prop) [Decidable c] (a b : List PatchLine) (p : Parser) :
+    len (if c then (a, p.getLine.2) else (b, p)).2 ≤ len p := by
+  split
+  · exact getLine_snd_le p
+  · exact Nat.le_refl _
+
+theorem dashes_le (p3 : Parser) :
+    len (if p3.s.peek = MINUS then
+            match p3.getLine with
+            | (some l, p') => if l.content = str "---" then p' else { s := p'.s.seek p3.s.rest, lineNo := p'.lineNo - 1 }
+            | (none, p') => { s := p'.s.seek p3.s.rest, lineNo := p'.lineNo - 1 }
+          else p3) ≤ len p3 := by
+  split
+  · split
+    · rename_i l p' hg
+      have := getLine_length hg
+      split
+      · simp only [len]; omega
+      · simp [len, PStream.seek]
+    · simp [len, PStream.seek]
+  · exact Nat.le_refl _
+
+theorem parseNormalBody_le : ∀ (fuel : Nat) (par : Parser) (hs hs' : List Hunk) (par' : Parser),
+    parseNormalBody fuel par hs = .ok (hs', par') →
+      len par' ≤ len par ∧
+      (0 < fuel → hs = [] → par.s.eof = false → par.s.bad = false → len par' < len par ∨ par'.s.eof = true) := by
+  intro fuel
+  induction fuel with
+  | zero => intro par hs hs' par' h; simp [parseNormalBody] at h; rw [h.2]; simp
+  | succ fuel ih =>
+    intro par hs hs' par' h
+    rw [parseNormalBody] at h
+    simp only [] at h
+    split at h
+    · rename_i par1 hg
+      simp only [Except.ok.injEq, Prod.mk.injEq] at h
+      have := getLine_none hg
+      rw [← h.2, len, this.1]
+      exact ⟨Nat.le_refl _, fun _ _ he hb => Or.inr (this.2 he hb)⟩
+    · rename_i l par1 hg
+      have hg := getLine_length hg
+      split at h
+      · simp only [Except.ok.injEq, Prod.mk.injEq] at h
+        rw [← h.2]; simp only [len]
+        exact ⟨by omega, fun _ _ _ _ => Or.inl (by omega)⟩
+      · split at h
+        · split at h
+          · simp at h
+          · rename_i hne
+            simp only [Except.ok.injEq, Prod.mk.injEq] at h
+            rw [← h.2]; simp only [len, PStream.seek]
+            refine ⟨Nat.le_refl _, fun _ hnil => ?_⟩
+            subst hnil; simp at hne
+        · split at h
+          · simp at h
+          · rename_i olds par2 h2
+            have h2 := normalReadSide_le _ _ _ _ _ _ _ _ h2
+            split at h
+            · simp at h
+            · rename_i ls2 par5 h5
+              have h5 := Nat.le_trans (normalReadSide_le _ _ _ _ _ _ _ _ h5) (Nat.le_trans (dashes_le _) (noNewline_le _ _ _ _))
+              have h6 := Nat.le_trans (ih _ _ _ _ h).1 (noNewline_le _ _ _ _)
+              simp only [len] at *
+              exact ⟨by omega, fun _ _ _ _ => Or.inl (by omega)⟩
+
+/-- the new-side bookkeeping of one hunk line -/
+def stepNew (st1 : UState) (what : UInt8) : UState :=
+  if what != MINUS then
+    let ne := st1.newExp - 1
+    if ne = 0 ∧ st1.par.s.peek = BACKSLASH then
+      { st1 with newExp := ne, hunk := { st1.hunk with lines := markLastNone st1.hunk.lines }, par := (st1.par.getLine).2 }
+    else { st1 with newExp := ne }
+  else st1
+
+/-- the old-side bookkeeping of one hunk line -/
+def stepOld (st2 : UState) (what : UInt8) : UState :=
+  if what != PLUS then
+    let oe := st2.oldExp - 1
+    if oe = 0 ∧ st2.par.s.peek = BACKSLASH then
+      { st2 with oldExp := oe, hunk := { st2.hunk with lines := markLastNone st2.hunk.lines }, par := (st2.par.getLine).2 }
+    else { st2 with oldExp := oe }
+  else st2
+
+/-- what `unifiedLoop` does after the last line of a hunk -/
+def afterHunk (fuel : Nat) (st4 : UState) : Except Exn (Bool × UState) :=
+  let pos := st4.par.s.rest
+  match st4.par.getLine with
+  | (none, par5) => .ok (true, { st4 with par := par5 })
+  | (some l2, par5) =>
+    let (ok, h') := parseUnifiedRange st4.hunk l2.content
+    if !ok then
+      .ok (true, { st4 with hunk := h', par := { s := par5.s.seek pos, lineNo := par5.lineNo - 1 } })
+    else unifiedLoop fuel { st4 with par := par5, hunk := h', content := true, oldExp := h'.old.count, newExp := h'.new.count }
+
+/-- one content line of a hunk -/
+def contentStep (fuel : Nat) (st : UState) (nl : NewLine) (line : Bytes) : Except Exn (Bool × UState) :=
+  match line with
+  | [] => .error .logicError
+  | what :: body =>
+    if what != SP && what != MINUS && what != PLUS then .error .parserError
+    else
+      let st3 := stepOld (stepNew { st with hunk := { st.hunk with lines := st.hunk.lines ++ [⟨what, ⟨body, nl⟩⟩] } } what) what
+      if st3.oldExp = 0 ∧ st3.newExp = 0 then
+        afterHunk fuel { st3 with hunks := st3.hunks ++ [st3.hunk], hunk := { st3.hunk with lines := [] } }
+      else unifiedLoop fuel st3
+
+/-- a line read while looking for a range line -/
+def rangeStep (fuel : Nat) (st : UState) (line : Bytes) : Except Exn (Bool × UState) :=
+  let (ok, h') := parseUnifiedRange st.hunk line
+  if ok then unifiedLoop fuel { st with hunk := h', content := true, oldExp := h'.old.count, newExp := h'.new.count }
+  else unifiedLoop fuel { st with hunk := h' }
+
+theorem unifiedLoop_succ (fuel : Nat) (st : UState) :
+    unifiedLoop (fuel + 1) st =
+      match st.par.getLine with
+      | (none, par') => .ok (false, { st with par := par' })
+      | (some l, par') =>
+        if !st.content then rangeStep fuel { st with par := par' } l.content
+        else contentStep fuel { st with par := par' } l.newline (if l.content.isEmpty then [SP] else l.content) := by
+  rw [unifiedLoop]
+  rfl
+
+theorem stepNew_le (st : UState) (w : UInt8) : len (stepNew st w).par ≤ len st.par := by
+  unfold stepNew
+  split
+  · simp only []
+    split
+    · exact getLine_snd_le _
+    · exact Nat.le_refl _
+  · exact Nat.le_refl _
+
+theorem stepOld_le (st : UState) (w : UInt8) : len (stepOld st w).par ≤ len st.par := by
+  unfold stepOld
+  split
+  · simp only []
+    split
+    · exact getLine_snd_le _
+    · exact Nat.le_refl _
+  · exact Nat.le_refl _
+
+/-- what the recursive calls are assumed to satisfy -/
+def LoopLe (fuel : Nat) : Prop :=
+  ∀ (st : UState) (b : Bool) (st' : UState), unifiedLoop fuel st = .ok (b, st') → len st'.par ≤ len st.par
+
+theorem afterHunk_le (fuel : Nat) (ih : LoopLe fuel) (st : UState) (b : Bool) (st' : UState)
+    (h : afterHunk fuel st = .ok (b, st')) : len st'.par ≤ len st.par := by
+  unfold afterHunk at h
+  simp only [] at h
+  split at h
+  · rename_i par5 hg5
+    simp only [Except.ok.injEq, Prod.mk.injEq] at h
+    rw [← h.2]; simp only [len]; rw [(getLine_none hg5).1]; exact Nat.le_refl _
+  · rename_i l2 par5 hg5
+    have hg5 := getLine_length hg5
+    split at h
+    · simp only [Except.ok.injEq, Prod.mk.injEq] at h
+      rw [← h.2]; simp only [len, PStream.seek]; exact Nat.le_refl _
+    · have := ih _ _ _ h
+      simp only [len] at *; omega
+
+theorem contentStep_le (fuel : Nat) (ih : LoopLe fuel) (st : UState) (nl : NewLine) (line : Bytes) (b : Bool) (st' : UState)
+    (h : contentStep fuel st nl line = .ok (b, st')) : len st'.par ≤ len st.par := by
+  unfold contentStep at h
+  split at h
+  · simp at h
+  · rename_i what body
+    split at h
+    · simp at h
+    · have h3 := Nat.le_trans (stepOld_le (stepNew { st with hunk := { st.hunk with lines := st.hunk.lines ++ [⟨what, ⟨body, nl⟩⟩] } } what) what)
+        (stepNew_le _ what)
+      revert h h3
+      simp only []
+      generalize stepOld (stepNew _ what) what = st3
+      intro h h3
+      split at h
+      · exact Nat.le_trans (afterHunk_le fuel ih _ _ _ h) h3
+      · exact Nat.le_trans (ih _ _ _ h) h3
+
+theorem rangeStep_le (fuel : Nat) (ih : LoopLe fuel) (st : UState) (line : Bytes) (b : Bool) (st' : UState)
+    (h : rangeStep fuel st line = .ok (b, st')) : len st'.par ≤ len st.par := by
+  unfold rangeStep at h
+  simp only [] at h
+  split at h
+  · have := ih _ _ _ h; exact this
+  · have := ih _ _ _ h; exact this
+
+theorem unifiedLoop_le : ∀ (fuel : Nat) (st : UState) (b : Bool) (st' : UState),
+    unifiedLoop fuel st = .ok (b, st') →
+      len st'.par ≤ len st.par ∧
+      (0 < fuel → st.par.s.eof = false → st.par.s.bad = false → len st'.par < len st.par ∨ st'.par.s.eof = true) := by
+  intro fuel
+  induction fuel with
+  | zero => intro st b st' h; simp [unifiedLoop] at h; rw [h.2]; simp
+  | succ fuel ih =>
+    intro st b st' h
+    have ih' : LoopLe fuel := fun st b st' h => (ih st b st' h).1
+    rw [unifiedLoop_succ] at h
+    split at h
+    · rename_i par1 hg
+      simp only [Except.ok.injEq, Prod.mk.injEq] at h
+      have := getLine_none hg
+      rw [← h.2]; simp only [len]; rw [this.1]
+      exact ⟨Nat.le_refl _, fun _ he hb => Or.inr (this.2 he hb)⟩
+    · rename_i l par1 hg
+      have hg := getLine_length hg
+      suffices len st'.par ≤ len par1 by
+        simp only [len] at *
+        exact ⟨by omega, fun _ _ _ => Or.inl (by omega)⟩
+      split at h
+      · exact rangeStep_le fuel ih' _ _ _ _ h
+      · exact contentStep_le fuel ih' _ _ _ _ _ h
+
+theorem parseUnifiedBody_le (par : Parser) (hs : List Hunk) (par' : Parser) (h : parseUnifiedBody par = .ok (hs, par')) :
+    len par' ≤ len par ∧ (par.s.eof = false → par.s.bad = false → len par' < len par ∨ par'.s.eof = true) := by
+  unfold parseUnifiedBody at h
+  have key : ∀ b st, unifiedLoop (par.s.rest.length + 2) { par := par } = .ok (b, st) →
+      len st.par ≤ len par ∧ (par.s.eof = false → par.s.bad = false → len st.par < len par ∨ st.par.s.eof = true) := by
+    intro b st hl
+    have := unifiedLoop_le _ _ _ _ hl
+    exact ⟨this.1, this.2 (by omega)⟩
+  split at h
+  · simp at h
+  · rename_i st hl
+    simp only [Except.ok.injEq, Prod.mk.injEq] at h
+    rw [← h.2]; exact key _ _ hl
+  · rename_i st hl
+    have := key _ _ hl
+    split at h
+    · simp only [Except.ok.injEq, Prod.mk.injEq] at h
+      rw [← h.2]; exact this
+    · split at h
+      · simp at h
+      · split at h
+        · simp at h
+        · simp only [Except.ok.injEq, Prod.mk.injEq] at h
+          rw [← h.2]; exact this
+
+/-- **a successful body parse makes progress**: it never leaves more unread lines than it found, and on a stream
+    with clear flags it consumes at least one line or sets the eof flag -/
+theorem parseBody_le (par : Parser) (p p' : Patch) (par' : Parser) (h : parseBody par p = .ok (p', par')) :
+    len par' ≤ len par ∧ (par.s.eof = false → par.s.bad = false → len par' < len par ∨ par'.s.eof = true) := by
+  unfold parseBody at h
+  simp only [] at h
+  split at h
+  · cases hb : parseUnifiedBody par with
+    | error e => rw [hb] at h; simp [Except.map] at h
+    | ok r =>
+      rcases r with ⟨hs, q⟩
+      rw [hb] at h
+      simp only [Except.map, Except.ok.injEq, Prod.mk.injEq] at h
+      rw [← h.2]; exact parseUnifiedBody_le _ _ _ hb
+  · cases hb : parseUnifiedBody par with
+    | error e => rw [hb] at h; simp [Except.map] at h
+    | ok r =>
+      rcases r with ⟨hs, q⟩
+      rw [hb] at h
+      simp only [Except.map, Except.ok.injEq, Prod.mk.injEq] at h
+      rw [← h.2]; exact parseUnifiedBody_le _ _ _ hb
+  · cases hb : parseContextBody (par.s.rest.length + 2) par [] with
+    | error e => rw [hb] at h; simp [Except.map] at h
+    | ok r =>
+      rcases r with ⟨hs, q⟩
+      rw [hb] at h
+      simp only [Except.map, Except.ok.injEq, Prod.mk.injEq] at h
+      rw [← h.2]
+      have := parseContextBody_le _ _ _ _ _ hb
+      exact ⟨this.1, fun _ _ => Or.inl (this.2 (by omega))⟩
+  · cases hb : parseNormalBody (par.s.rest.length + 2) par [] with
+    | error e => rw [hb] at h; simp [Except.map] at h
+    | ok r =>
+      rcases r with ⟨hs, q⟩
+      rw [hb] at h
+      simp only [Except.map, Except.ok.injEq, Prod.mk.injEq] at h
+      rw [← h.2]
+      have := parseNormalBody_le _ _ _ _ _ hb
+      exact ⟨this.1, this.2 (by omega) rfl⟩
+  · simp at h
+
+theorem map_ok {ε α β} {f : α → β} {x : Except ε α} {y : β} (h : x.map f = .ok y) : ∃ a, x = .ok a ∧ f a = y := by
+  cases x with
+  | error e => simp [Except.map] at h
+  | ok a => exact ⟨a, rfl, by simpa [Except.map] using h⟩
+
+/-! ### the header scan: the pieces of `headerStep` -/
+
+/-- the unified part of `headerStep` -/
+def hdrUnified (last : Format) (st : HState) (p : Patch) (line : Bytes) : Option (HState × Bool) × HState :=
+  if p.format = .unknown ∨ p.format = .unified then
+    if last = .unified ∧ (startsWith line "+" ∨ startsWith line "-" ∨ startsWith line " ") then
+      (some ({ st with patch := { p with oldPath := p.newPath, newPath := p.oldPath,
+                                         oldTime := p.newTime, newTime := p.oldTime, format := .unified } }, false), st)
+    else
+      let (ok, h') := parseUnifiedRange st.hunk line
+      let st' := { st with hunk := h' }
+      if ok then (some ({ st' with thisLooks := .unified, ltfh := st.lines }, true), st') else (none, st')
+  else (none, st)
+
+/-- the normal part of `headerStep` -/
+def hdrNormal (last : Format) (st : HState) (p : Patch) (line : Bytes) : Option (HState × Bool) × HState :=
+  if p.format = .unknown ∨ p.format = .normal then
+    if last = .normal ∧ (startsWith line "> " ∨ startsWith line "< ") then
+      (some ({ st with patch := { p with format := .normal, newPath := [], oldPath := [] } }, false), st)
+    else
+      let (ok, h') := parseNormalRange st.hunk line
+      let st' := { st with hunk := h' }
+      if ok then (some ({ st' with thisLooks := .normal, ltfh := st.lines }, true), st') else (none, st')
+  else (none, st)
+
+/-- the context part of `headerStep` -/
+def hdrContext (last : Format) (st : HState) (p : Patch) (line : Bytes) : Except Exn (HState × Bool) :=
+  if p.format = .unknown ∨ p.format = .context then
+    if last = .context ∧ startsWith line "*** " then
+      let hunk' : Hunk :=
+        if endsWith line " ****" then
+          let (ok, s, _) := parseContextRange (-1) (-1) (ctxRangeText line)
+          if ok then { st.hunk with old := { st.hunk.old with start := s } } else st.hunk
+        else st.hunk
+      let hunk'' := ctxLookahead (st.par.s.rest.length + 1) st.par hunk'
+      .ok ({ st with patch := { p with format := .context }, hunk := hunk'' }, false)
+    else if startsWith line "***************" then
+      .ok ({ st with thisLooks := .context, ltfh := st.lines }, true)
+    else .ok (st, true)
+  else .ok (st, true)
+
+/-- `headerStep` after the keyword lines -/
+def hdrTail (last : Format) (st : HState) (line : Bytes) (strip : Int) : Except Exn (HState × Bool) :=
+  let ext : Except Exn (Bool × Patch) := if st.isGit then parseGitExtendedInfo line st.patch strip else .ok (false, st.patch)
+  match ext with
+  | .error e => .error e
+  | .ok (true, p') => .ok ({ st with patch := p', ltfh := st.lines + 1 }, true)
+  | .ok (false, p') =>
+    match hdrUnified last { st with patch := p' } p' line with
+    | (some res, _) => .ok res
+    | (none, st) =>
+      match hdrNormal last st p' line with
+      | (some res, _) => .ok res
+      | (none, st) => hdrContext last st p' line
+
+theorem headerStep_eq (st0 : HState) (line : Bytes) (strip : Int) :
+    headerStep st0 line strip =
+      (let last := st0.thisLooks
+       let st := { st0 with lines := st0.lines + 1, thisLooks := Format.unknown }
+       let p := st.patch
+       match (match (if last != .context then consumeStr (str "*** ") line else none) with
+              | some r => some r
+              | none => consumeStr (str "+++ ") line) with
+       | some r =>
+         (parseFileLine r strip).map fun res =>
+           let (pa, ti) := assignFileLine res p.oldTime
+           ({ st with patch := { p with oldPath := pa, oldTime := ti } }, true)
+       | none =>
+       match consumeStr (str "--- ") line with
+       | some r =>
+         (parseFileLine r strip).map fun res =>
+           let (pa, ti) := assignFileLine res p.newTime
+           ({ st with patch := { p with newPath := pa, newTime := ti } }, true)
+       | none =>
+       match consumeStr (str "Index: ") line with
+       | some r => (parseFileLine r strip).map fun res => ({ st with patch := { p with indexPath := res.1 } }, true)
+       | none =>
+       match consumeStr (str "Prereq: ") line with
+       | some r => (parseFileLine r strip).map fun res => ({ st with patch := { p with prerequisite := res.1 } }, true)
+       | none =>
+       match consumeStr (str "diff --git ") line with
+       | some r =>
+         if st.isGit then .ok ({ st with ltfh := st.lines, shouldParseBody := false }, false)
+         else (parseGitHeaderName r strip).map fun name =>
+           ({ st with patch := { p with oldPath := name, newPath := name, format := .unified }, isGit := true }, true)
+       | none => hdrTail last st line strip) := by
+  unfold headerStep
+  rfl
+
+/-- the fields of the scan state that the tail of `headerStep` leaves alone -/
+def Good (L : Nat) (S : Bool) (x : HState) : Prop := x.lines = L ∧ x.shouldParseBody = S
+
+theorem hdrUnified_good {L S} (last : Format) (st : HState) (p : Patch) (line : Bytes) (hg : Good L S st) :
+    Good L S (hdrUnified last st p line).2 ∧ ∀ res, (hdrUnified last st p line).1 = some res → Good L S res.1 := by
+  unfold hdrUnified
+  simp only []
+  split
+  · split
+    · refine ⟨hg, ?_⟩
+      intro res hr; simp only [Option.some.injEq] at hr; subst hr; exact hg
+    · split
+      · refine ⟨hg, ?_⟩
+        intro res hr; simp only [Option.some.injEq] at hr; subst hr; exact hg
+      · exact ⟨hg, by intro res hr; simp at hr⟩
+  · exact ⟨hg, by intro res hr; simp at hr⟩
+
+theorem hdrNormal_good {L S} (last : Format) (st : HState) (p : Patch) (line : Bytes) (hg : Good L S st) :
+    Good L S (hdrNormal last st p line).2 ∧ ∀ res, (hdrNormal last st p line).1 = some res → Good L S res.1 := by
+  unfold hdrNormal
+  simp only []
+  split
+  · split
+    · refine ⟨hg, ?_⟩
+      intro res hr; simp only [Option.some.injEq] at hr; subst hr; exact hg
+    · split
+      · refine ⟨hg, ?_⟩
+        intro res hr; simp only [Option.some.injEq] at hr; subst hr; exact hg
+      · exact ⟨hg, by intro res hr; simp at hr⟩
+  · exact ⟨hg, by intro res hr; simp at hr⟩
+
+theorem hdrContext_good {L S} (last : Format) (st : HState) (p : Patch) (line : Bytes) (hg : Good L S st)
+    (res : HState × Bool) (h : hdrContext last st p line = .ok res) : Good L S res.1 := by
+  unfold hdrContext at h
+  simp only [] at h
+  split at h
+  · split at h
+    · simp only [Except.ok.injEq] at h; subst h; exact hg
+    · split at h
+      · simp only [Except.ok.injEq] at h; subst h; exact hg
+      · simp only [Except.ok.injEq] at h; subst h; exact hg
+  · simp only [Except.ok.injEq] at h; subst h; exact hg
+
+theorem hdrTail_good {L S} (last : Format) (st : HState) (line : Bytes) (strip : Int) (hg : Good L S st)
+    (res : HState × Bool) (h : hdrTail last st line strip = .ok res) : Good L S res.1 := by
+  unfold hdrTail at h
+  simp only [] at h
+  split at h
+  · simp at h
+  · simp only [Except.ok.injEq] at h; subst h; exact hg
+  · rename_i p' _
+    have h1 := hdrUnified_good (L := L) (S := S) last { st with patch := p' } p' line hg
+    revert h h1
+    generalize hdrUnified last { st with patch := p' } p' line = r1
+    rcases r1 with ⟨_ | res1, st1⟩
+    · intro h h1
+      simp only [] at h h1
+      have h2 := hdrNormal_good (L := L) (S := S) last st1 p' line h1.1
+      revert h h2
+      generalize hdrNormal last st1 p' line = r2
+      rcases r2 with ⟨_ | res2, st2⟩
+      · intro h h2
+        simp only [] at h h2
+        exact hdrContext_good last st2 p' line h2.1 res h
+      · intro h h2
+        simp only [Except.ok.injEq] at h; subst h
+        exact h2.2 _ rfl
+    · intro h h1
+      simp only [Except.ok.injEq] at h; subst h
+      exact h1.2 _ rfl
+
+/-- what one step of the header scan does to the line count and to `should_parse_body` -/
+def StepInv (st st' : HState) (c : Bool) : Prop :=
+  st'.lines = st.lines + 1 ∧
+    (st'.shouldParseBody = st.shouldParseBody ∨ (st.isGit = true ∧ st'.ltfh = st.lines + 1 ∧ c = false))
+
+theorem headerStep_inv (st : HState) (line : Bytes) (strip : Int) (st' : HState) (c : Bool)
+    (h : headerStep st line strip = .ok (st', c)) : StepInv st st' c := by
+  rw [headerStep_eq] at h
+  simp only [] at h
+  split at h
+  · obtain ⟨a, _, ha⟩ := map_ok h
+    simp only [Prod.mk.injEq] at ha
+    obtain ⟨rfl, rfl⟩ := ha
+    exact ⟨rfl, Or.inl rfl⟩
+  · split at h
+    · obtain ⟨a, _, ha⟩ := map_ok h
+      simp only [Prod.mk.injEq] at ha
+      obtain ⟨rfl, rfl⟩ := ha
+      exact ⟨rfl, Or.inl rfl⟩
+    · split at h
+      · obtain ⟨a, _, ha⟩ := map_ok h
+        simp only [Prod.mk.injEq] at ha
+        obtain ⟨rfl, rfl⟩ := ha
+        exact ⟨rfl, Or.inl rfl⟩
+      · split at h
+        · obtain ⟨a, _, ha⟩ := map_ok h
+          simp only [Prod.mk.injEq] at ha
+          obtain ⟨rfl, rfl⟩ := ha
+          exact ⟨rfl, Or.inl rfl⟩
+        · split at h
+          · split at h
+            · rename_i hgit
+              simp only [Except.ok.injEq, Prod.mk.injEq] at h
+              obtain ⟨rfl, rfl⟩ := h
+              exact ⟨rfl, Or.inr ⟨hgit, rfl, rfl⟩⟩
+            · obtain ⟨a, _, ha⟩ := map_ok h
+              simp only [Prod.mk.injEq] at ha
+              obtain ⟨rfl, rfl⟩ := ha
+              exact ⟨rfl, Or.inl rfl⟩
+          · have := hdrTail_good (L := st.lines + 1) (S := st.shouldParseBody) _ _ _ _ (by exact ⟨rfl, rfl⟩) _ h
+            exact ⟨this.1, Or.inl this.2⟩
+
+/-- the header scan leaves `should_parse_body` set unless it stopped at a second `diff --git` line, which is at least
+    the second line of the section -/
+theorem headerLoop_inv (strip : Int) : ∀ (fuel : Nat) (st st' : HState),
+    (st.isGit = true → 1 ≤ st.lines) → st.shouldParseBody = true → headerLoop strip fuel st = .ok st' →
+      st'.shouldParseBody = true ∨ 2 ≤ st'.ltfh := by
+  intro fuel
+  induction fuel with
+  | zero => intro st st' _ hs h; simp [headerLoop] at h; subst h; exact Or.inl hs
+  | succ fuel ih =>
+    intro st st' hgit hs h
+    rw [headerLoop] at h
+    split at h
+    · simp only [Except.ok.injEq] at h; subst h; exact Or.inl hs
+    · rename_i l par1 _
+      split at h
+      · simp at h
+      · rename_i st1 hstep
+        have := headerStep_inv _ _ _ _ _ hstep
+        simp only [StepInv] at this
+        refine ih st1 st' (fun _ => by omega) ?_ h
+        rcases this.2 with h2 | h2
+        · rw [h2]; exact hs
+        · simp at h2
+      · rename_i st1 hstep
+        simp only [Except.ok.injEq] at h; subst h
+        have := headerStep_inv _ _ _ _ _ hstep
+        simp only [StepInv] at this
+        rcases this.2 with h2 | h2
+        · left; rw [h2]; exact hs
+        · right; have := hgit h2.1; omega
+
+/-- **`parse_patch_header` re-reads within what it scanned**: the stream is left at most where it started; and either at
+    least one line is consumed, or nothing is consumed, the flags are clear and the body is to be parsed -/
+theorem parseHeader_le (par : Parser) (patch : Patch) (strip : Int) (body : Bool) (p : Patch) (info : HeaderInfo) (par' : Parser)
+    (h : parseHeader par patch strip = .ok (body, p, info, par')) :
+    len par' + (info.linesTillFirstHunk - 1) = len par ∧
+    (len par' < len par ∨ (par'.s.eof = false ∧ par'.s.bad = false ∧ body = true)) := by
+  unfold parseHeader at h
+  simp only [] at h
+  split at h
+  · simp at h
+  · rename_i st hl
+    have hinv := headerLoop_inv strip _ _ _ (by simp) rfl hl
+    split at h
+    · simp at h
+    · rename_i par2 hsk
+      simp only [Except.ok.injEq, Prod.mk.injEq] at h
+      obtain ⟨hb, _, hi, hp⟩ := h
+      subst hb hi hp
+      have hlen := skipLines_length hsk
+      simp only [PStream.seek, PStream.clear] at hlen
+      refine ⟨hlen, ?_⟩
+      by_cases h2 : 2 ≤ st.ltfh
+      · left; simp only [len]; omega
+      · right
+        have h0 : st.ltfh - 1 = 0 := by omega
+        rw [h0] at hsk
+        have := skipLines_zero_eq hsk
+        subst this
+        refine ⟨rfl, rfl, ?_⟩
+        rcases hinv with h | h
+        · exact h
+        · omega
+
+/-- **the section loop never runs out of fuel**: each pass consumes a line, or sets the eof flag (and the next pass stops) -/
+theorem parseAll_fuel (format : Format) (strip : Int) : ∀ (fuel : Nat) (par : Parser) (acc acc' : List Patch) (par' : Parser) (b : Bool),
+    ((par.s.eof = true ∧ 1 ≤ fuel) ∨ len par + 2 ≤ fuel) →
+    parseAll format strip fuel par acc = .ok (acc', par', b) → b = false := by
+  intro fuel
+  induction fuel with
+  | zero => intro par acc acc' par' b hf; omega
+  | succ fuel ih =>
+    intro par acc acc' par' b hf h
+    rw [parseAll] at h
+    split at h
+    · simp only [Except.ok.injEq, Prod.mk.injEq] at h; exact h.2.2.symm
+    · rename_i heof
+      have hf : len par + 2 ≤ fuel + 1 := by
+        rcases hf with hf | hf
+        · exact absurd hf.1 heof
+        · exact hf
+      split at h
+      · simp at h
+      · rename_i body p info par1 hh
+        have hh := parseHeader_le _ _ _ _ _ _ _ hh
+        split at h
+        · simp only [Except.ok.injEq, Prod.mk.injEq] at h; exact h.2.2.symm
+        · split at h
+          · split at h
+            · simp at h
+            · rename_i p' par2 hb
+              have hb := parseBody_le _ _ _ _ hb
+              refine ih _ _ _ _ _ ?_ h
+              rcases hh.2 with h1 | ⟨h1, h2, _⟩
+              · right; omega
+              · rcases hb.2 h1 h2 with h3 | h3
+                · right; omega
+                · left; exact ⟨h3, by omega⟩
+          · rename_i hbody
+            refine ih _ _ _ _ _ ?_ h
+            rcases hh.2 with h1 | ⟨_, _, h3⟩
+            · right; omega
+            · exact absurd h3 hbody
 
 end PatchModel.Cost
